@@ -120,6 +120,9 @@ def repr (tab : ObjTab) : Val → R Str
     match vs with
     | [_] => pure (lit "(" ++ xs ++ lit ",)")
     | _ => pure (lit "(" ++ xs ++ lit ")")
+  | .dict kvs => do
+    let xs ← reprPairs tab kvs
+    pure (lit "{" ++ xs ++ lit "}")
   | _ => .unsupported "repr"
 def reprList (tab : ObjTab) : List Val → R Str
   | [] => pure []
@@ -128,6 +131,17 @@ def reprList (tab : ObjTab) : List Val → R Str
     let a ← repr tab v
     let b ← reprList tab vs
     pure (a ++ lit ", " ++ b)
+def reprPairs (tab : ObjTab) : List (Val × Val) → R Str
+  | [] => pure []
+  | [(k, v)] => do
+    let a ← repr tab k
+    let b ← repr tab v
+    pure (a ++ lit ": " ++ b)
+  | (k, v) :: rest => do
+    let a ← repr tab k
+    let b ← repr tab v
+    let c ← reprPairs tab rest
+    pure (a ++ lit ": " ++ b ++ lit ", " ++ c)
 end
 
 /-- `str(v)` -/
@@ -141,7 +155,7 @@ def strOf (tab : ObjTab) : Val → R Str
     | Option.none => .unsupported "unknown object"
   | .excValue _ m => pure m
   | .excClass c => pure (lit "<class '" ++ lit c ++ lit "'>")
-  | v@(.list _) | v@(.tuple _) => repr tab v
+  | v@(.list _) | v@(.tuple _) | v@(.dict _) => repr tab v
   | _ => .unsupported "str() of this value"
 
 def isPlain : Val → Bool
@@ -155,7 +169,7 @@ def pyEq : Val → Val → R Bool
   | .none, .none => pure true
   | .dflt, .dflt => pure true
   | .bool a, .bool b => pure (a == b)
-  | .bool a, .int b | .int b, .bool a => pure ((if a then 1 else 0) == b)
+  | .bool a, .int b | .int b, .bool a | .bool a, .cint b | .cint b, .bool a => pure ((if a then 1 else 0) == b)
   | .int a, .int b | .cint a, .int b | .int a, .cint b | .cint a, .cint b => pure (a == b)
   | .str a, .str b | .cstr a, .str b | .str a, .cstr b | .cstr a, .cstr b => pure (a == b)
   | .markup a, .str b | .str a, .markup b | .markup a, .markup b => pure (a == b)
@@ -183,6 +197,13 @@ def pyIs : Val → Val → R Bool
   | .obj a, .obj b => pure (a == b)
   | .none, _ | _, .none | .dflt, _ | _, .dflt => pure false
   | .bool _, _ | _, .bool _ => pure false
+  -- CPython's small-integer cache: one object per value in [-5, 256]
+  | .int a, .int b => if -5 ≤ a && a ≤ 256 && -5 ≤ b && b ≤ 256 then pure (a == b) else .unsupported "identity of values"
+  | .int _, .str _ | .str _, .int _ | .int _, .list _ | .list _, .int _ | .int _, .tuple _ | .tuple _, .int _
+  | .int _, .dict _ | .dict _, .int _ | .int _, .obj _ | .obj _, .int _ | .str _, .obj _ | .obj _, .str _
+  | .str _, .list _ | .list _, .str _ | .str _, .tuple _ | .tuple _, .str _ | .str _, .dict _ | .dict _, .str _
+  | .list _, .tuple _ | .tuple _, .list _ | .list _, .dict _ | .dict _, .list _ | .tuple _, .dict _ | .dict _, .tuple _
+  | .list _, .obj _ | .obj _, .list _ | .tuple _, .obj _ | .obj _, .tuple _ | .dict _, .obj _ | .obj _, .dict _ => pure false
   | _, _ => .unsupported "identity of values"
 
 end Val
